@@ -115,6 +115,13 @@ class Runner:
             self._gather = eqx.filter_jit(lambda b, i: b.gather(i))
             self._rsample = {ax: eqx.filter_jit(lambda bf, k, _ax=ax: bf.sample(max(1, B), key=k, batch_axes=_ax)) for ax in self.axes_variants}
             self._buf, _ = self._tagged_rollout()
+            # minibatches over only ONE of the buffer axes (whole trajectories / whole time slices)
+            self._partial = {}
+            if cls["n"] > 1:
+                for ax in (0, 1):
+                    size = (cls["n"], cls["T"])[ax]
+                    pb = 2 if size >= 2 else 1
+                    self._partial[ax] = (pb, eqx.filter_jit(lambda b, k, _ax=ax, _pb=pb: b.batches(_pb, key=k, batch_axes=_ax)))
 
     # ------------------------------------------------------------------ plans
 
@@ -135,7 +142,7 @@ class Runner:
         # rollout API
         return {
             "scenario": NAME, "cls": cls, "faults": [],
-            "ops": [{"op": rng.choice(["batches", "indices_gather", "sample", "flatten", "shuffle_probe"]), "key": rng.getrandbits(31), "shuffle": rng.random() < 0.8, "axes": rng.randrange(4)} for _ in range(rng.randint(2, 6))],
+            "ops": [{"op": rng.choice(["batches", "indices_gather", "sample", "flatten", "shuffle_probe", "partial"]), "key": rng.getrandbits(31), "shuffle": rng.random() < 0.8, "axes": rng.randrange(4)} for _ in range(rng.randint(2, 6))],
         }
 
     def shrink_candidates(self, plan: dict):
@@ -351,6 +358,28 @@ class Runner:
                     if not np.array_equal(np.asarray(tags[0]).round().astype(int), flat_tags[row].round().astype(int)):
                         res.fail("C09", "row_intact", "gather_returned_other_rows", want=flat_tags[row].tolist(), got=np.asarray(tags[0]).tolist())
                         break
+            elif kind == "partial":
+                if self._partial:
+                    pax = op.get("axes", 0) % 2
+                    pb, fn = self._partial[pax]
+                    out = fn(buf, key)
+                    tags = self._rollout_tags(out)
+                    base = np.asarray(tags[0], dtype=np.float64)
+                    size, other = ((n, T) if pax == 0 else (T, n))
+                    tr.ev("partial", axis=pax, shape=list(base.shape))
+                    res.events["E.partial_axis_batches"] += 1
+                    if base.shape != (size // pb, pb, other):
+                        res.fail("C09", "used_count", "wrong_batch_grid_shape_for_partial_axes", got=list(base.shape), expected=[size // pb, pb, other], axis=pax)
+                    elif any(np.any(np.abs(np.asarray(t, dtype=np.float64) - base) > 1e-3) or np.any(~np.isfinite(np.asarray(t, dtype=np.float64))) for t in tags):
+                        res.fail("C09", "row_intact", "fields_of_row_disagree_in_partial_axis_batches", axis=pax)
+                    else:
+                        ids = base.round().astype(int).reshape(-1).tolist()
+                        if len(set(ids)) != len(ids) or not set(ids) <= set(range(1, N + 1)):
+                            res.fail("C09", "at_most_once_per_epoch", "slice_repeated_or_foreign_in_partial_axis_batches", axis=pax, got=ids[:32])
+                        else:
+                            res.ok("C09", "at_most_once_per_epoch")
+                            res.ok("C09", "used_count")
+                            res.ok("C09", "row_intact")
             elif kind == "shuffle_probe":
                 # a keyed epoch shuffles SAMPLES, not just the order of fixed contiguous minibatches: with three keys the
                 # membership of the minibatches equals the sequential partition every time with probability < 1e-15 (N >= 8, >= 2 batches)
